@@ -252,6 +252,6 @@ const prelude = `
 (define-fun truncR ((a Real)) Int (ite (>= a 0.0) (to_int a) (- (to_int (- a)))))
 (declare-sort Str 0)
 (declare-datatypes ((Slice 0)) (((mk-slice (s.arr Int) (s.off Int) (s.len Int)))))
-(declare-fun str.len (Str) Int)
+(declare-fun gstr.len (Str) Int)
 (declare-fun isqrt (Int) Int)
 `
